@@ -87,7 +87,9 @@ def modelStep (r : RSt) (name : String) (op : List Nat) : RSt × String :=
   | "init", [base, n, root] =>
     let st : St := { mem := { base := base, n := n, log := [.word root 511 (w (root * 4096 + 3))] }, cr3 := w (root * 4096) }
     fin (.ok ((0, 0), st)) { st := st }
-  | "alloc", fs => fin (.ok ((0, 0), { st0 with free := fs.map w })) r
+  | "alloc", fs =>
+    let mem := fs.foldl (fun m f => if m.backed f then m.setFrame f (fun i => w f * w (2 * i + 1) + w i) else m) st0.mem
+    fin (.ok ((0, 0), { st0 with free := fs.map w, mem := mem })) r
   | "map", [p, f, fl] => fin (code (mapOp st0 (w p) (w f) (w fl))) r
   | "unmap", [p] => fin (code (unmapOp st0 (w p))) r
   | "xlate", [va] => fin (translate st0 (w va)) r
